@@ -590,6 +590,10 @@ def scenarios(pid, tier, rng):
     return scs
 
 
+# kinds whose reading is built from window extremes of high and low
+OUTSIDE_KINDS = ["DONCHIAN", "HL", "HLA", "DONCHIAN", "KC", "Supertrend", "TR", "ATR"]
+
+
 def _scenarios(pid, tier, rng):
     q = tier == "quick"
     k = (lambda a, b: a if q else b)
@@ -600,7 +604,9 @@ def _scenarios(pid, tier, rng):
                 + fam_chain(rng, pid, k(110, 500)))
     if pid == "C05":
         return (fam_kinds(rng, pid, sorted(C05_KINDS), k(280, 1300), tf_share=0.25)
-                + fam_chain(rng, pid, k(70, 300), targets=("STDEV", "BBANDS", "KC", "STDEVTHRES", "Counter", "STDEV", "BBANDS")))
+                + fam_chain(rng, pid, k(70, 300), targets=("STDEV", "BBANDS", "KC", "STDEVTHRES", "Counter", "STDEV", "BBANDS"))
+                # outside bars (round 12): both window extremes move in one candle
+                + fam_kinds(rng, pid + "o", OUTSIDE_KINDS, k(40, 200), styles=["outside"], tf_share=0.15))
     if pid == "C06":
         return (fam_kinds(rng, pid, sorted(C06_KINDS), k(280, 1300), tf_share=0.25)
                 + fam_chain(rng, pid, k(70, 300), targets=("RSI", "MACD", "ROC", "STOCH", "TSI")))
@@ -615,7 +621,9 @@ def _scenarios(pid, tier, rng):
                 + fam_maintenance(rng, pid, k(50, 300)))
     if pid == "C10":
         return (fam_kinds(rng, pid, ALL_KINDS, k(420, 1800), twins=(), tf_share=0.3)
-                + fam_readd(rng, pid, k(24, 150), twins=()))
+                + fam_readd(rng, pid, k(24, 150), twins=())
+                + fam_kinds(rng, pid + "o", OUTSIDE_KINDS + ["STOCH", "AROON", "BBANDS"], k(48, 240),
+                            styles=["outside"], twins=(), tf_share=0.15))
     if pid == "C01":
         return (fam_kinds(rng, pid, ALL_KINDS, k(200, 1200), tf_share=0.6)
                 + fam_chain(rng, pid, k(40, 200)) + fam_amorph(rng, pid, k(64, 320))
